@@ -2117,7 +2117,16 @@ class PseudoNetCDFFile(PseudoNetCDFSelfReg, object):
                         varo[sliceoi], axis=concatax))
                 newvals = np.concatenate(point_arrays, axis=concatax)
             else:
-                newvals = varo[sliceo]
+                # apply the selectors one axis at a time (orthogonal
+                # selection); indexing with the whole tuple lets numpy move
+                # the list axis to the front when an integer and a list are
+                # separated by a sliced axis. integers are applied as
+                # one-element lists so that their axes are kept
+                newvals = varo[...]
+                for axi, si in enumerate(sliceo):
+                    if np.isscalar(si):
+                        si = [si]
+                    newvals = newvals[(slice(None),) * axi + (si,)]
             try:
                 newvaro[...] = newvals
             except Exception:
